@@ -175,11 +175,11 @@ func init() {
 	reg(&Prop{ID: "C05", Level: "exploration",
 		Quick:    Tier{Cases: 9600, PerJob: 600, Seconds: 70},
 		Thorough: Tier{Cases: 640000, PerJob: 8000, Seconds: 1500},
-		Rule:     "one case = random tree created as root on tmpfs (<= 40 entries, depth <= 5: nested and empty directories, files of 0..16 KiB, symlinks to anything, char/block devices, user xattrs, arbitrary uid/gid, permission + set-id/sticky bits, arbitrary ns mtimes, names with any bytes except '/' and NUL) x digest {SHA512/256, SHA256} x one of {catar: Tar -> UnTar; caidx+store: Tar -> pipe -> ChunkStream(n) -> index written and re-read -> UnTarIndex(n) with a slow, reordering store, all under the seeded scheduler; GNU-tar output parsed with archive/tar; tar-stream input built with archive/tar}; oracle: lstat/readlink/xattr/content/mtime snapshot of source and result equal (ranked categories), two packings byte-identical, chunked archive bytes == direct archive bytes; distinct = distinct (path, digest, size bucket, trace hash / tape); every case is non-trivial (a generated tree); 1/60 of the cases run the real `desync tar` and `desync untar` binaries (catar file or -i with a local store, default or --digest sha256) on a generated tree with the same snapshot oracle",
+		Rule:     "one case = random tree created as root on tmpfs (<= 40 entries, depth <= 5: nested and empty directories, files of 0..16 KiB, symlinks to anything, char/block devices, user xattrs, arbitrary uid/gid, permission + set-id/sticky bits, arbitrary ns mtimes, names with any bytes except '/' and NUL) x digest {SHA512/256, SHA256} x one of {catar: Tar -> UnTar; caidx+store: Tar -> pipe -> ChunkStream(n) -> index written and re-read -> UnTarIndex(n) with a slow, reordering store, all under the seeded scheduler; GNU-tar output parsed with archive/tar; mtree output read back by an mtree(5) parser; tar-stream input built with archive/tar, optionally cut inside a member}; oracle: lstat/readlink/xattr/content/mtime snapshot of source and result equal (ranked categories), two packings byte-identical, chunked archive bytes == direct archive bytes; distinct = distinct (path, digest, size bucket, trace hash / tape); every case is non-trivial (a generated tree); 1/60 of the cases run the real `desync tar`, `desync untar` and `desync mtree` binaries (catar file or -i with a local store, default or --digest sha256, disk or --input-format tar input incl. a truncated tar file) on a generated tree with the same snapshot oracle",
 		Assumptions: []string{
 			"metadata fidelity is input coverage rather than simulation (DESIGN.md C05 honest limit); the simulated part is the five-stage chunked pipeline",
 			"GNU tar output: xattrs and sub-second mtimes are not compared (the format cannot carry them); a refusal by archive/tar is not a wrong result",
-			"mtree output and fifos/sockets are not exercised",
+			"mtree output: xattrs and device numbers are not compared (desync's mtree writer does not carry them); fifos/sockets are not exercised",
 		},
 		Real: []string{"Tar", "UnTar", "UnTarIndex", "ChunkStream", "ArchiveDecoder", "FormatEncoder/Decoder", "LocalFS", "TarReader", "TarWriter", "Index codec"},
 		Stub: []string{"chunk store (latency)", "scheduler"},
